@@ -343,6 +343,29 @@ class Parser:
             return Node("subshell", tok.line, body=body)
         if tok.kind != "word":
             self.err(f"unexpected token {tok.text!r}")
+        # function definition: name() { ... }   /   function name { ... }
+        nxt = self.t[self.p + 1] if self.p + 1 < len(self.t) else None
+        nx2 = self.t[self.p + 2] if self.p + 2 < len(self.t) else None
+        if tok.text not in RESERVED and re.match(r"^[A-Za-z_][A-Za-z0-9_]*$", tok.text) and nxt and nx2 \
+                and nxt.kind == "op" and nxt.text == "(" and nx2.kind == "op" and nx2.text == ")":
+            self.eat(); self.eat(); self.eat()
+            while self.peek() and self.peek().kind == "nl":
+                self.eat()
+            body = self.parse_command()
+            if body.kind != "group":
+                self.err("function body must be a { } group")
+            return Node("funcdef", tok.line, words=[tok.text], body=body.body)
+        if tok.text == "function":
+            self.eat()
+            name = self.eat().text
+            if self.peek() and self.peek().kind == "op" and self.peek().text == "(":
+                self.eat(); self.eat()
+            while self.peek() and self.peek().kind == "nl":
+                self.eat()
+            body = self.parse_command()
+            if body.kind != "group":
+                self.err("function body must be a { } group")
+            return Node("funcdef", tok.line, words=[name], body=body.body)
         if tok.text == "if":
             self.eat()
             n = Node("if", tok.line)
@@ -421,8 +444,6 @@ class Parser:
             body = self.parse_list({"}"})
             self.expect_word("}")
             return Node("group", tok.line, body=body)
-        if tok.text == "function":
-            self.err("function definitions")
         if tok.text in RESERVED:
             self.err(f"unexpected reserved word {tok.text!r}")
         # simple command
@@ -523,8 +544,21 @@ def flat_text(n: Node) -> str:
 def walk_commands(root: Node) -> List[Cmd]:
     """Every simple command with its errexit context and guards, in script order."""
     out: List[Cmd] = []
+    functions = {}
+    active = []
 
     def visit(n: Node, ctx: str, guards):
+        if n.kind == "funcdef":
+            functions[n.words[0]] = n.body
+            return
+        if n.kind == "simple" and n.name in functions and n.name not in active:
+            # a call of a script-defined function: its body runs here (same errexit context and guards)
+            active.append(n.name)
+            import copy as _copy
+            body = _copy.deepcopy(functions[n.name])
+            visit(body, ctx, guards + [(f"call {n.name}", True)])
+            active.pop()
+            return
         if n.kind == "list":
             for ch in n.children:
                 visit(ch, ctx if ctx != "plain" else ("background" if ch.background else "plain"), guards)
